@@ -74,7 +74,7 @@ def run(rep, tier, seed):
         case = engine.Case(t, v)
         rep.case('corpus ' + case.canon)
         check_case(rep, drv, case, [script])
-    for case in engine.gen_cases(rng, n, max_depth=3):
+    for case in engine.gen_cases(rng, n, max_depth=3, allow_any=True, any_ber=True):
         if not engine.representable(case):
             continue
         scripts = [[rng.randrange(0, 12) for _ in range(rng.choice([4, 16, 60]))] for _ in range(per)]
